@@ -32,7 +32,23 @@ def hierarchy_ok(arch, modules):
                 kids.setdefault(a, []).append(b)
     except Exception:  # noqa: BLE001
         return (modules[0] if modules else "?"), None
+    try:
+        # the library's own search (what rules use for 'sub modules of'), when it is where it used to be; the hierarchy edges
+        # above are the representation-level observation
+        from pytestarch.eval_structure.breadth_first_searches import get_all_submodules_of as _lib_sub
+        from pytestarch.eval_structure.evaluable_architecture import ModuleNameFilter as _MNF
+        inner = next((v for v in vars(arch).values() if hasattr(v, "direct_successor_nodes")), None)
+    except Exception:  # noqa: BLE001
+        _lib_sub = inner = None
     for m in modules:
+        if _lib_sub is not None and inner is not None:
+            try:
+                lib = set(_lib_sub(inner, _MNF(name=m)))
+            except Exception:  # noqa: BLE001
+                return m, None
+            exp0 = {x for x in modules if x == m or x.startswith(m + ".")}
+            if lib != exp0:
+                return m, (sorted(lib), sorted(exp0))
         got, todo = set(), [m]
         while todo:
             x = todo.pop()
